@@ -347,6 +347,7 @@ def run(program, ctx):
 KV = "nostr_relay/storage/kv.py"
 
 MUTANTS = [
+    M("c10-key-rstripped", "nostr_relay/storage/kv.py", "            to_save = b\"%s\\x00%s\\x00%s\" % (key, ctime, event_id)", "            to_save = b\"%s\\x00%s\\x00%s\" % (key.rstrip(b\"\\x00\"), ctime, event_id)", "C10.injective"),
     M("c10-dup-prefix", KV, "class AuthorKindIndex(Index):\n    prefix = b\"\\x04\"", "class AuthorKindIndex(Index):\n    prefix = b\"\\x03\"", "C10.keyspace", canary=True),
     M("c10-prefix-above-tombstone", KV, "class TagIndex(Index):\n    prefix = b\"\\x09\"", "class TagIndex(Index):\n    prefix = b\"\\xf0\"", "C10.keyspace"),
     M("c10-clear-noop", KV, "class KindIndex(Index):\n    prefix = b\"\\x02\"\n", "class KindIndex(Index):\n    prefix = b\"\\x02\"\n\n    def clear(self, event, txn):\n        pass\n", "C10.symmetric"),
